@@ -1,7 +1,6 @@
 package definition
 
 import (
-	"strings"
 	"sync"
 
 	"github.com/nyaruka/goflow/assets"
@@ -57,15 +56,15 @@ func (a *flowAssets) FindByName(name string) (flows.Flow, error) {
 	a.mutex.Lock()
 	defer a.mutex.Unlock()
 
-	for _, flow := range a.cache {
-		if strings.EqualFold(flow.Name(), name) {
-			return flow, nil
-		}
-	}
-
+	// the source decides which flow has this name, the cache only saves reading it again - otherwise the answer
+	// would depend on which flows happen to have been loaded before and on map ordering
 	asset, err := a.source.FlowByName(name)
 	if err != nil {
 		return nil, err
+	}
+
+	if flow := a.cache[asset.UUID()]; flow != nil {
+		return flow, nil
 	}
 
 	flow, err := ReadAsset(asset, a.migrationConfig)
